@@ -144,3 +144,8 @@ package limit
 //@   property C03
 //@   ghost at entry: n0 = n
 //@   call reserveN#0: assert arg_n == n0 && arg_now == now && arg_recv == lim
+//@ func Align closure 0
+//@   property C03
+//@   requires l != nil
+//@   ensures l.align
+//@   modifies l.align
